@@ -7,11 +7,18 @@
 From Coq Require Import ZArith NArith List String Bool.
 From Bignums Require Import BigZ.
 From V Require Import Lib.Hex Lib.Num Prim.Bls12 Spec.ZcashCodec Generated.Consts.
+From V Require Import Model.Hashers Model.MapToG1 Spec.HashSpec Spec.HashToCurveSpec.
 Import ListNotations.
 Open Scope string_scope.
 
+(* where the 128 bytes given to map_to_G1 come from: the library's expand_message hasher
+   NewExpandMsgXOFKMAC128(tag) applied to the message, or a test hasher with a fixed output *)
+Inductive hash_src := HKmac (tag msg : string) | HFixed.
+
 Inductive case :=
 | SigCase (sk : string) (h : string) (idpk : bool) (sign : string) (cands : list (string * string))
+| SigCaseH (sk : string) (h : string) (idpk : bool) (sign : string) (cands : list (string * string))
+           (src : hash_src) (hout : string)
 | HasherCase (size : Z) (sign_v : string) (verify_v : string).
 
 Definition to_pt1 (P : jpt (F:=bigZ)) : pt1 :=
@@ -33,10 +40,65 @@ Definition verdict_ok (idpk : bool) (sk : Z) (Sg : list N) (c : string * string)
   let exp := negb idpk && negb (Z.eqb sk 0) && bytes_eqb b Sg in
   String.eqb (snd c) (if exp then "true" else "false").
 
+(* ---- the hash-to-curve step ----
+   model of the hasher (Model/Hashers.v: NewKMAC_128(tag ++ ciphersuite, "H2C", 128).ComputeHash)
+   and model of map_to_G1 (Model/MapToG1.v) against the observed hasher output and H(m) *)
+Definition pt1_eqb (P Q : pt1) : bool :=
+  match P, Q with
+  | Inf1, Inf1 => true
+  | Aff1 x y, Aff1 x' y' => Z.eqb x x' && Z.eqb y y'
+  | _, _ => false
+  end.
+
+Definition model_hasher_output (src : hash_src) : option (list N) :=
+  match src with
+  | HFixed => None
+  | HKmac tag msg =>
+      match NewKMAC_128 (hex tag ++ crypto_blsSigCipherSuite)
+                        crypto_internalExpandMsgXOFKMAC128__blsKMACFunction crypto_expandMsgOutput with
+      | inl k => Some (fst (k_computeHash k (hex msg)))
+      | inr _ => None
+      end
+  end.
+
+Definition hasher_ok (src : hash_src) (hout : list N) : bool :=
+  match src with
+  | HFixed => true
+  | HKmac _ _ => match model_hasher_output src with Some o => bytes_eqb o hout | None => false end
+  end.
+
+Definition h2c_model_ok (hout h : list N) : bool :=
+  match map_to_G1_pt hout, g1_decode h with
+  | Some P, Some Q => pt1_eqb P Q
+  | _, _ => false
+  end.
+
+(* independent oracle: RFC 9380 hash_to_curve (Spec/HashToCurveSpec.v) on the same bytes; for the
+   library's hasher the bytes themselves are KMAC128(tag ++ suite, msg, 1024, "H2C") of SP 800-185 *)
+Definition spec_hasher_ok (src : hash_src) (hout : list N) : bool :=
+  match src with
+  | HFixed => true
+  | HKmac tag msg =>
+      bytes_eqb (KMAC128 (hex tag ++ crypto_blsSigCipherSuite) (hex msg) 128
+                         crypto_internalExpandMsgXOFKMAC128__blsKMACFunction) hout
+  end.
+Definition h2c_spec_ok (hout h : list N) : bool :=
+  match spec_hash_bytes_to_G1 hout, g1_decode h with
+  | Some P, Some Q => pt1_eqb P Q
+  | _, _ => false
+  end.
+
 Definition check (c : case) : bool :=
   match c with
   | SigCase sk h idpk sign cands =>
       let k := be2z (hex sk) in
+      match expected_sig k (hex h) with
+      | None => false
+      | Some Sg => bytes_eqb (hex sign) Sg && forallb (verdict_ok idpk k Sg) cands
+      end
+  | SigCaseH sk h idpk sign cands src hout =>
+      let k := be2z (hex sk) in
+      (if hasher_ok src (hex hout) then h2c_model_ok (hex hout) (hex h) else false) &&
       match expected_sig k (hex h) with
       | None => false
       | Some Sg => bytes_eqb (hex sign) Sg && forallb (verdict_ok idpk k Sg) cands
@@ -49,16 +111,21 @@ Definition check (c : case) : bool :=
 (* property-level oracle on the implementation's own observations: the returned
    signature verifies (unless the key is the identity / zero), at most one candidate
    string is accepted and it is the one Sign returned, H is in G1 *)
-Definition prop_check (c : case) : bool :=
-  check c &&   (* the closed form is the property's own statement (C01_verify_iff_canonical_sig) *)
-  match c with
-  | SigCase sk h idpk sign cands =>
+Definition prop_sig (sk h : string) (idpk : bool) (sign : string) (cands : list (string * string)) : bool :=
       let k := be2z (hex sk) in
       let accepted := filter (fun c => String.eqb (snd c) "true") cands in
       forallb (fun c => String.eqb (snd c) "true" || String.eqb (snd c) "false") cands &&
       forallb (fun c => String.eqb (fst c) sign) accepted &&
       (if idpk || Z.eqb k 0 then match accepted with [] => true | _ => false end else true) &&
-      match g1_decode (hex h) with Some P => pt1_in_G1 P | None => false end
+      match g1_decode (hex h) with Some P => pt1_in_G1 P | None => false end.
+
+Definition prop_check (c : case) : bool :=
+  check c &&   (* the closed form is the property's own statement (C01_verify_iff_canonical_sig) *)
+  match c with
+  | SigCase sk h idpk sign cands => prop_sig sk h idpk sign cands
+  | SigCaseH sk h idpk sign cands src hout =>
+      prop_sig sk h idpk sign cands &&
+      (if spec_hasher_ok src (hex hout) then h2c_spec_ok (hex hout) (hex h) else false)
   | HasherCase size sv vv => negb (String.eqb sv "true") && negb (String.eqb vv "true") && negb (String.eqb vv "false")
   end.
 
@@ -66,3 +133,15 @@ Definition bad_ids (cs : list (N * case)) : list N :=
   map fst (filter (fun p => negb (check (snd p))) cs).
 Definition prop_bad_ids (cs : list (N * case)) : list N :=
   map fst (filter (fun p => negb (prop_check (snd p))) cs).
+
+(* the whole signing pipeline in the model: message -> KMAC128 expand_message (Model/Hashers.v)
+   -> map_to_G1 (Model/MapToG1.v) -> [sk] (Prim/Bls12.v) -> compressed encoding (Spec/ZcashCodec.v) *)
+Definition model_sign (tag msg : list N) (sk : Z) : option (list N) :=
+  match model_hasher_output (HKmac (tohex tag) (tohex msg)) with
+  | None => None
+  | Some hout =>
+      match map_to_G1 BNum pB hout with
+      | G1Invalid => None
+      | G1Point H => Some (g1_encode (to_pt1 (jmul (FpOps BNum pB) sk H)))
+      end
+  end.
